@@ -43,6 +43,9 @@ type c11op struct {
 func (o c11op) String() string {
 	names := map[string]string{"SetJSON": "SetJSONMode", "SetColor": "SetColorMode", "WithJSON": "WithJSONMode", "WithColor": "WithColorMode",
 		"NewJSON": "New(name, WithJSONMode", "NewColor": "New(name, WithColorMode", "New": "New(name"}
+	if o.Kind == "WithSkip1" {
+		return fmt.Sprintf("L%d.WithSkip(1)", o.Target)
+	}
 	s := fmt.Sprintf("L%d.%s%s", o.Target, names[o.Kind], argListName(c11argLists[o.Args]))
 	if strings.HasPrefix(o.Kind, "New") {
 		if o.Kind == "New" {
@@ -56,9 +59,17 @@ func (o c11op) String() string {
 type c11model struct {
 	fmts   []string // json | color | logfmt
 	parent []int
+	skip1  []int // per logger: the index of the child WithSkip(1) returned for it, or 0 = none yet (index 0 is never a child)
 }
 
-func (m c11model) key() string { return fmt.Sprint(m.fmts, m.parent) }
+func (m c11model) key() string { return fmt.Sprint(m.fmts, m.parent, m.skip1) }
+
+func (m c11model) skipChild(t int) int {
+	if t < len(m.skip1) {
+		return m.skip1[t]
+	}
+	return 0
+}
 
 func applyJSON(cur string, args []bool) string {
 	if lastOr(args, true) {
@@ -94,13 +105,19 @@ func (m c11model) modelOps() []c11op {
 			}
 			ops = append(ops, c11op{"New", t, 0})
 		}
+		if m.skipChild(t) != 0 || len(m.fmts) < c11maxLoggers {
+			ops = append(ops, c11op{"WithSkip1", t, 0}) // creates the skip child, or hands the existing one out again - unchanged
+		}
 	}
 	return ops
 }
 
 // modelApply is the pure reference transition function.
 func (m c11model) modelApply(o c11op) c11model {
-	n := c11model{fmts: append([]string{}, m.fmts...), parent: append([]int{}, m.parent...)}
+	n := c11model{fmts: append([]string{}, m.fmts...), parent: append([]int{}, m.parent...), skip1: append([]int{}, m.skip1...)}
+	for len(n.skip1) < len(n.fmts) {
+		n.skip1 = append(n.skip1, 0)
+	}
 	args := c11argLists[o.Args]
 	cur := m.fmts[o.Target]
 	add := func(f string) { n.fmts = append(n.fmts, f); n.parent = append(n.parent, o.Target) }
@@ -115,6 +132,14 @@ func (m c11model) modelApply(o c11op) c11model {
 		add(applyColor(args))
 	case "New":
 		add(cur)
+	case "WithSkip1":
+		if n.skip1[o.Target] == 0 {
+			n.skip1[o.Target] = len(n.fmts)
+			add(cur)
+		}
+	}
+	for len(n.skip1) < len(n.fmts) {
+		n.skip1 = append(n.skip1, 0)
 	}
 	return n
 }
@@ -169,6 +194,9 @@ func (w *c11world) ops() []c11op {
 			}
 			ops = append(ops, c11op{"New", t, 0})
 		}
+		if w.model.skipChild(t) != 0 || len(w.loggers) < c11maxLoggers {
+			ops = append(ops, c11op{"WithSkip1", t, 0})
+		}
 	}
 	return ops
 }
@@ -215,6 +243,22 @@ func (w *c11world) apply(o c11op) (pan string) {
 			}
 		case "New":
 			add(l.New(name), cur)
+		case "WithSkip1":
+			ch := l.WithSkip(1)
+			if idx := w.model.skipChild(o.Target); idx != 0 {
+				if ch != w.loggers[idx] {
+					panic("WithSkip(1) on the same logger returned another child than before")
+				}
+			} else {
+				for len(w.model.skip1) < len(w.model.fmts) {
+					w.model.skip1 = append(w.model.skip1, 0)
+				}
+				w.model.skip1[o.Target] = len(w.loggers)
+				add(ch, cur)
+			}
+		}
+		for len(w.model.skip1) < len(w.model.fmts) {
+			w.model.skip1 = append(w.model.skip1, 0)
 		}
 	})
 }
